@@ -1,6 +1,7 @@
 package checks
 
 import (
+	"math"
 	"fmt"
 	"sort"
 	"strings"
@@ -28,6 +29,8 @@ type c07Item struct {
 // such (query, dataset) pairs are skipped
 var c07Unspec = map[string]func(g c07Group) bool{
 	"sp": func(g c07Group) bool { return len(ref.Usable(g.V)) == 0 },
+	// CASE over a NULL operand is C06's subject (known finding there); groups with a NULL value are left out
+	"sc": func(g c07Group) bool { return len(ref.Usable(g.V)) != len(g.V) },
 }
 
 func agg1(f func([]float64) float64, vs []ref.Val) (float64, bool) {
@@ -60,6 +63,25 @@ var c07Items = []c07Item{
 		a, ok := agg1(ref.Max, g.V)
 		b, _ := agg1(ref.Min, g.V)
 		return a - b, ok
+	}},
+	// scalar function over an aggregate, aggregate over a scalar function, aggregate over CASE
+	{"abs(min(v) - 3) AS ab", "ab", func(g c07Group) (float64, bool) { a, ok := agg1(ref.Min, g.V); return math.Abs(a - 3), ok }},
+	{"sum(abs(v - 2)) AS sa", "sa", func(g c07Group) (float64, bool) {
+		xs := ref.Usable(g.V)
+		t := 0.0
+		for _, x := range xs {
+			t += math.Abs(x - 2)
+		}
+		return t, len(xs) > 0
+	}},
+	{"sum(CASE WHEN v > 1 THEN 1 ELSE 0 END) AS sc", "sc", func(g c07Group) (float64, bool) {
+		t := 0.0
+		for _, x := range ref.Usable(g.V) {
+			if x > 1 {
+				t++
+			}
+		}
+		return t, true
 	}},
 	// the same aggregate on two columns
 	{"sum(v) - sum(w2) AS sd2", "sd2", func(g c07Group) (float64, bool) {
@@ -189,7 +211,7 @@ func hasAll(items []int, need []int) bool {
 }
 
 func c07Progs(tier string) []c07Prog {
-	itemSets := [][]int{{0}, {1}, {2}, {3}, {4}, {5}, {6}, {8}, {9}, {0, 7}, {0, 1, 4}, {7, 0, 2}, {0, 6, 7}, {8, 4}, {9, 0}}
+	itemSets := [][]int{{0}, {1}, {2}, {3}, {4}, {5}, {6}, {8}, {9}, {10}, {11}, {12}, {0, 7}, {0, 1, 4}, {7, 0, 2}, {0, 6, 7}, {8, 4}, {12, 0}, {9, 10, 11}}
 	var out []c07Prog
 	for _, its := range itemSets {
 		for h := range c07Havings {
